@@ -18,7 +18,7 @@ def T(module, *names, partial=False):
           "Kanzi.Properties.C12_ans1": "Kanzi.C12", "Kanzi.Properties.C12_cm": "Kanzi.C12", "Kanzi.Properties.C13_srt": "Kanzi.C13", "Kanzi.Properties.C01_blockgen": "Kanzi.C01gen",
           "Kanzi.Properties.C19_paths": "Kanzi.C19", "Kanzi.Properties.C13_alias": "Kanzi.C13", "Kanzi.Properties.C13_lzp": "Kanzi.C13", "Kanzi.Properties.C13_fsd": "Kanzi.C13", "Kanzi.Properties.C12_binary": "Kanzi.C12", "Kanzi.Properties.C12_fpaq": "Kanzi.C12",
           "Kanzi.Properties.C12_cm_codec": "Kanzi.C12", "Kanzi.Properties.C13_lz": "Kanzi.C13", "Kanzi.Properties.C13_lz_consts": "Kanzi.ConstsTie",
-          "Kanzi.Properties.C12_tpaq": "Kanzi.C12", "Kanzi.Properties.C12_tpaq_codec": "Kanzi.C12", "Kanzi.Properties.C12_huffman": "Kanzi.C12"}[module]
+          "Kanzi.Properties.C12_tpaq": "Kanzi.C12", "Kanzi.Properties.C12_tpaq_codec": "Kanzi.C12", "Kanzi.Properties.C12_huffman": "Kanzi.C12", "Kanzi.Properties.C13_utf": "Kanzi.C13"}[module]
     return [{"module": module, "name": n if n.startswith("Kanzi.") else ns + "." + n, "partial": partial or n.endswith("_partial")} for n in names]
 
 
@@ -70,6 +70,7 @@ FPAQ = {"name": "fpaq", "kmodel": "fpaq", "timeout": 7200}
 LZ = {"name": "lz", "kmodel": "lz", "timeout": 7200}
 TPAQPRED = {"name": "tpaqpred", "kmodel": "tpaqpred", "timeout": 7200}
 HUFFMAN = {"name": "huffman", "kmodel": "huffman", "timeout": 7200}
+UTF = {"name": "utf", "kmodel": "utf", "timeout": 7200}
 LZP = {"name": "lzp", "kmodel": "lzp", "timeout": 3600}
 FSD = {"name": "fsd", "kmodel": "fsd", "timeout": 3600}
 SRT = {"name": "srt", "kmodel": "srt", "timeout": 3600}
@@ -250,7 +251,7 @@ PROPS["C12"] = {
 
 PROPS["C13"] = {
     "title": "Transforms: exact inverse pairs, in bounds, clean decline", "design_ref": "5.13", "level": "proof",
-    "technique": "PARTIAL Lean proof: Null, ZRLT, SBRT (all modes), RLT (incl. totality of Inverse on arbitrary input), SRT, PACK/DNA (alias codec), LZ/LZX, LZP, MM and the transform sequence with skip flags proved as inverse pairs with output bounds; byte-identical differential tie; all 19 transforms searched directly with canaries",
+    "technique": "PARTIAL Lean proof: Null, ZRLT, SBRT (all modes), RLT (incl. totality of Inverse on arbitrary input), SRT, PACK/DNA (alias codec), LZ/LZX, LZP, MM, UTF and the transform sequence with skip flags proved as inverse pairs with output bounds; byte-identical differential tie; all 19 transforms searched directly with canaries",
     "facts": ["Consts"],
     "theorems": T(M13, "C13_null", "C13_zrlt", "C13_zrlt_bytes", "C13_zrlt_no_wrap", "C13_sbrt", "C13_sequence", "C13_sequence_plain", "C13_sequence_all_declined", "C13_sequence_mode_byte", "C13_sequence_len", "C13_sequence_small", "C13_sequence_dst")
                 + T("Kanzi.Properties.C13_rlt", "C13_rlt", "C13_rlt_total", "C13_rlt_bytes", "C13_rlt_shorter")
@@ -260,10 +261,11 @@ PROPS["C13"] = {
                 + T("Kanzi.Properties.C13_lz", "C13_lz_lengths", "C13_lz_lengths_wrap", "C13_lz_format", "C13_lz_forward_valid", "C13_lz", "C13_lz_bound", "C13_lz_total", "C13_lz_hash_fifth_byte")
                 + T("Kanzi.Properties.C13_lz", "C13_lz_inverse_fuel_partial", partial=True)
                 + T("Kanzi.Properties.C13_lz_consts", "lz_consts")
+                + T("Kanzi.Properties.C13_utf", "C13_utf_pack", "C13_utf_sizes", "C13_utf", "C13_utf_shorter", "C13_utf_total", "C13_utf_fault_overlap", "C13_utf_bytes", "C13_utf_consts")
                 + T("Kanzi.Properties.C13_lzp", "C13_lzp", "C13_lzp_sync", "C13_lzp_total", "C13_lzp_bytes", "C13_lzp_shorter")
                 + T("Kanzi.Properties.C13_fsd", "C13_fsd", "C13_fsd_total", "C13_fsd_bytes", "C13_fsd_any_choice", "C13_fsd_zigzag", "C13_fsd_zigzag_delta") + T(MCT, "transform_consts", "io_consts", "rlt_consts"),
-    "streams": [TRSMALL, RLT, SRT, ALIAS, LZ, LZP, FSD, TRDIRECT],
-    "level_text": "PARTIAL PROOF. Proved for all blocks: Null, ZRLT (output <= MaxEncodedLen, inverse restores), SBRT in every mode; the transform sequence for up to 8 stages and every pattern of declining stages (skip flags in the mode byte or the extra byte recover exactly; all-declined leaves the block; composed MaxEncodedLen bounds the output). Models tied by byte-identical outputs on tens of thousands of blocks. RLT is modelled completely (escape selection, DetectSimpleType, both early declines, 1/2/3-byte run lengths, pending byte, tail) and proved: accepted blocks are strictly shorter, fit MaxEncodedLen and are restored by Inverse into any destination >= the original length, and NEITHER direction can index out of range - Inverse on ARBITRARY input returns ok or a clean error (C13_rlt, C13_rlt_total, C13_rlt_shorter); byte-exact rlt stream (both defects F28/F29 are flagged on the pre-fix file). SRT is modelled completely (Shell sort of the symbols proved to be a sorting permutation, 1..5-byte varint header, rank coding): for every block below 2^31 bytes Forward never declines or faults, its output is at most len+1028 <= MaxEncodedLen bytes (len <= 2^30) and Inverse restores the block (C13_srt, C13_srt_len, C13_srt_size_sharp); Inverse cannot fault on a well-formed header (C13_srt_total_inverse_partial - PARTIAL: on malformed input it DOES index out of range, proved as C13_srt_inverse_faults_*; such faults are outside C13 and are recovered by the decoding task, see DESIGN §6 observations); byte-exact srt stream. The alias codec (PACK and DNA) is modelled completely (one-symbol, 2-bit and 4-bit packing, the digram path with its order-1 histogram, merge sort and alias map, every decline, the dataType write-back): accepted blocks are strictly shorter, fit MaxEncodedLen and are restored exactly for both variants and every hint; correctness holds for ANY injective alias map onto unused bytes (C13_alias_any_injective_map); Forward never faults, Inverse never faults on a Forward output, and on arbitrary input it faults exactly when the decidable predicate invSafe is false (C13_alias_total; those malformed-input faults are observations, recovered by the decoding task); byte-exact alias stream. LZP is modelled completely (uint32 context hash, 65536-entry position table, 254-step length coding, both copy branches): accepted blocks are restored by Inverse, and the encoder and decoder hash tables and contexts are proved equal at EVERY step (C13_lzp, C13_lzp_sync); Forward never faults; Inverse on arbitrary input returns data, a clean error or exactly one of two index faults whose conditions are proved (observations). MM (fixed-step delta codec) is modelled completely incl. the magic-number test, the three-window entropy sampling with the real log2 tables and the delta/xor choice: round trip for every (distance, mode) choice (C13_fsd_any_choice), accepted blocks fit and are restored (C13_fsd), and BOTH directions are total - Inverse cannot fault on any input (C13_fsd_total); zigzag tables proved mutually inverse. Byte-exact lzp and fsd streams. LZ / LZX (the LZ77 codec, bitstream version 6) is modelled completely - both 64-bit hash functions, hash table, lazy matching, repeat distances, token / length / distance coding in four sections, every decline; the decoder with its 16-byte overshooting copy loop - and proved: the 1/3/4-byte length coding is an inverse pair below 2^24+255 and wraps beyond (the cause of F31: C13_lz_lengths, C13_lz_lengths_wrap); the decoder is correct for EVERY valid token stream (C13_lz_format); every stream the encoder emits is a valid token stream denoting the block (C13_lz_forward_valid: no claim about match quality); hence Inverse(Forward b) = b, within MaxEncodedLen (C13_lz, C13_lz_bound); Forward never faults - incl. the never-grown token buffer, which is large enough only because both hashes are injective in the fifth byte (C13_lz_hash_fifth_byte) - and Inverse never faults on a Forward output (C13_lz_total); faults of Inverse on forged input are observations (the model is the exact no-panic predicate: C13_lz_inverse_fuel_partial). Byte-exact lz stream. NOT modelled: BWT/BWTS, ROLZ/ROLZX, TEXT, UTF, EXE - searched directly on the real code (trdirect: every transform and the CLI chains, pipeline buffer sizes with canaries, input-intact checks, data-type hints, all data shapes).",
+    "streams": [TRSMALL, RLT, SRT, ALIAS, LZ, LZP, FSD, UTF, TRDIRECT],
+    "level_text": "PARTIAL PROOF. Proved for all blocks: Null, ZRLT (output <= MaxEncodedLen, inverse restores), SBRT in every mode; the transform sequence for up to 8 stages and every pattern of declining stages (skip flags in the mode byte or the extra byte recover exactly; all-declined leaves the block; composed MaxEncodedLen bounds the output). Models tied by byte-identical outputs on tens of thousands of blocks. RLT is modelled completely (escape selection, DetectSimpleType, both early declines, 1/2/3-byte run lengths, pending byte, tail) and proved: accepted blocks are strictly shorter, fit MaxEncodedLen and are restored by Inverse into any destination >= the original length, and NEITHER direction can index out of range - Inverse on ARBITRARY input returns ok or a clean error (C13_rlt, C13_rlt_total, C13_rlt_shorter); byte-exact rlt stream (both defects F28/F29 are flagged on the pre-fix file). SRT is modelled completely (Shell sort of the symbols proved to be a sorting permutation, 1..5-byte varint header, rank coding): for every block below 2^31 bytes Forward never declines or faults, its output is at most len+1028 <= MaxEncodedLen bytes (len <= 2^30) and Inverse restores the block (C13_srt, C13_srt_len, C13_srt_size_sharp); Inverse cannot fault on a well-formed header (C13_srt_total_inverse_partial - PARTIAL: on malformed input it DOES index out of range, proved as C13_srt_inverse_faults_*; such faults are outside C13 and are recovered by the decoding task, see DESIGN §6 observations); byte-exact srt stream. The alias codec (PACK and DNA) is modelled completely (one-symbol, 2-bit and 4-bit packing, the digram path with its order-1 histogram, merge sort and alias map, every decline, the dataType write-back): accepted blocks are strictly shorter, fit MaxEncodedLen and are restored exactly for both variants and every hint; correctness holds for ANY injective alias map onto unused bytes (C13_alias_any_injective_map); Forward never faults, Inverse never faults on a Forward output, and on arbitrary input it faults exactly when the decidable predicate invSafe is false (C13_alias_total; those malformed-input faults are observations, recovered by the decoding task); byte-exact alias stream. LZP is modelled completely (uint32 context hash, 65536-entry position table, 254-step length coding, both copy branches): accepted blocks are restored by Inverse, and the encoder and decoder hash tables and contexts are proved equal at EVERY step (C13_lzp, C13_lzp_sync); Forward never faults; Inverse on arbitrary input returns data, a clean error or exactly one of two index faults whose conditions are proved (observations). MM (fixed-step delta codec) is modelled completely incl. the magic-number test, the three-window entropy sampling with the real log2 tables and the delta/xor choice: round trip for every (distance, mode) choice (C13_fsd_any_choice), accepted blocks fit and are restored (C13_fsd), and BOTH directions are total - Inverse cannot fault on any input (C13_fsd_total); zigzag tables proved mutually inverse. Byte-exact lzp and fsd streams. LZ / LZX (the LZ77 codec, bitstream version 6) is modelled completely - both 64-bit hash functions, hash table, lazy matching, repeat distances, token / length / distance coding in four sections, every decline; the decoder with its 16-byte overshooting copy loop - and proved: the 1/3/4-byte length coding is an inverse pair below 2^24+255 and wraps beyond (the cause of F31: C13_lz_lengths, C13_lz_lengths_wrap); the decoder is correct for EVERY valid token stream (C13_lz_format); every stream the encoder emits is a valid token stream denoting the block (C13_lz_forward_valid: no claim about match quality); hence Inverse(Forward b) = b, within MaxEncodedLen (C13_lz, C13_lz_bound); Forward never faults - incl. the never-grown token buffer, which is large enough only because both hashes are injective in the fifth byte (C13_lz_hash_fifth_byte) - and Inverse never faults on a Forward output (C13_lz_total); faults of Inverse on forged input are observations (the model is the exact no-panic predicate: C13_lz_inverse_fuel_partial). Byte-exact lz stream. UTF (code point aliasing) is modelled completely (validation tables, head / tail bytes, BOM test, 32768-symbol limit, ranking sort, both unpack variants) and proved after the repair F41: pack/unpack is lossless on every accepted sequence (C13_utf_pack), accepted blocks are strictly shorter and restored exactly for every hint (C13_utf), Forward never faults, Inverse never faults on a Forward output and its exact fault condition on forged input is a theorem (C13_utf_total); correctness holds for any injective ranking. NOT modelled: BWT/BWTS, ROLZ/ROLZX, TEXT, EXE (slices in progress) - searched directly on the real code (trdirect: every transform and the CLI chains, pipeline buffer sizes with canaries, input-intact checks, data-type hints, all data shapes).",
     "level_note": BASE_NOTE + "'input left unmodified' is immediate in the value-level model and checked on the real buffers by the trdirect oracle.",
     "assumptions": [],
 }
